@@ -17,6 +17,8 @@
 #include <map>
 #include <set>
 #include <string>
+#include <sys/syscall.h>
+#include <sys/wait.h>
 #include <unistd.h>
 #include <vector>
 
@@ -85,12 +87,88 @@ struct Report {
   }
 };
 
+// ---- a Report as JSON, for executions isolated in a forked child ---------------------------------------------
+inline js::Value report_to_json(const Report &r) {
+  js::Value v = js::Value::obj();
+  v.set("cls", r.cls).set("key", r.key).set("detail", r.detail).set("diverged", r.diverged).set("fp", js::hex(r.fingerprint)).set("shape", js::hex(r.shape))
+   .set("steps", r.steps).set("multi", r.multi).set("switches", r.switches).set("sim_time", r.sim_time).set("max_tasks", r.max_tasks).set("max_blocked", r.max_blocked)
+   .set("decisions", js::Value::arr_of(r.decisions));
+  js::Value dv = js::Value::arr();
+  for (auto &d : r.deviations) dv.push(js::Value::arr().push(d.first).push(d.second));
+  v.set("deviations", dv);
+  js::Value c = js::Value::obj();
+  for (auto &kv : r.counters) c.set(kv.first, kv.second);
+  v.set("counters", c);
+  js::Value st = js::Value::arr();
+  for (uint64_t x : r.states) st.push(js::hex(x));
+  v.set("states", st).set("trace", js::Value::arr_of(r.trace)).set("history", r.history).set("replacement_plan", r.replacement_plan);
+  return v;
+}
+inline Report report_from_json(const js::Value &v) {
+  Report r;
+  r.cls = v.str("cls"); r.key = v.str("key"); r.detail = v.str("detail"); r.diverged = v.at("diverged").b;
+  r.fingerprint = strtoull(v.str("fp").c_str(), nullptr, 16); r.shape = strtoull(v.str("shape").c_str(), nullptr, 16);
+  r.steps = (long)v.num("steps", 0); r.multi = (long)v.num("multi", 0); r.switches = (long)v.num("switches", 0); r.sim_time = (long)v.num("sim_time", 0);
+  r.max_tasks = (int)v.num("max_tasks", 0); r.max_blocked = (int)v.num("max_blocked", 0);
+  for (auto &d : v.at("decisions").a) r.decisions.push_back((int)d.i);
+  for (auto &d : v.at("deviations").a) r.deviations.emplace_back((long)d.a[0].i, (int)d.a[1].i);
+  for (auto &kv : v.at("counters").o) r.counters[kv.first] = (long)kv.second.i;
+  for (auto &x : v.at("states").a) r.states.push_back(strtoull(x.s.c_str(), nullptr, 16));
+  for (auto &x : v.at("trace").a) r.trace.push_back(x.s);
+  r.history = v.at("history"); r.replacement_plan = v.at("replacement_plan");
+  return r;
+}
+
 inline double wall_now() {
   return std::chrono::duration<double>(std::chrono::steady_clock::now().time_since_epoch()).count();
 }
 
 template <class E> struct Driver {
   using Plan = typename E::Plan;
+
+  // One execution in a forked child: every execution starts from the same process image (after E::setup), so that
+  // process-global state of the code under test (a function-local static cache, say) cannot leak from one execution
+  // into the next.  A child that dies reports class "crash".
+  static bool &isolate() { static bool v = true; return v; }
+  static Report run_plan(const Plan &p, const SchedSpec &spec) {
+    if (!isolate()) return E::execute(p, spec);
+    int fds[2];
+    if (pipe(fds) != 0) harness_error("pipe failed");
+    fflush(stdout);
+    pid_t pid = fork();
+    if (pid < 0) harness_error("fork failed");
+    if (pid == 0) {
+      close(fds[0]);
+      rearm_watchdog();
+      Report r = E::execute(p, spec);
+      std::string out = report_to_json(r).dump();
+      size_t off = 0;
+      while (off < out.size()) { ssize_t n = ::write(fds[1], out.data() + off, out.size() - off); if (n <= 0) break; off += (size_t)n; }
+      close(fds[1]);
+      fflush(stdout);
+      syscall(SYS_exit_group, 0);
+    }
+    close(fds[1]);
+    std::string in;
+    char buf[65536];
+    ssize_t n;
+    while ((n = ::read(fds[0], buf, sizeof buf)) > 0) in.append(buf, (size_t)n);
+    close(fds[0]);
+    int status = 0;
+    waitpid(pid, &status, 0);
+    if (WIFEXITED(status) && (WEXITSTATUS(status) == 4 || WEXITSTATUS(status) == 5 || WEXITSTATUS(status) == 2)) {
+      fflush(stdout);  // the child's watchdog (STALL line) or a harness error ended the run: pass it on unchanged
+      syscall(SYS_exit_group, WEXITSTATUS(status));
+    }
+    if (!WIFEXITED(status) || WEXITSTATUS(status) != 0 || in.empty()) {
+      Report r;
+      r.cls = "crash";
+      r.key = "crash:child";
+      r.detail = "the code under test ended the isolated run abnormally (status " + std::to_string(status) + ")";
+      return r;
+    }
+    return report_from_json(js::parse(in));
+  }
 
   static js::Value result_json(const Plan &p, const Report &r, bool full) {
     js::Value v = js::Value::obj();
@@ -136,7 +214,7 @@ template <class E> struct Driver {
         for (int k = 0; k < 12 && execs < max_exec && !hit; k++) {
           Plan c = cand;
           if (k > 0) { Rng r; r.seed(plan.sched_seed, (uint64_t)k + 77); c.pick_strategy(r); }
-          Report rr = E::execute(c, SchedSpec());
+          Report rr = run_plan(c, SchedSpec());
           execs++;
           if (rr.cls == cls) { plan = c; rep = rr; hit = true; }
         }
@@ -154,7 +232,7 @@ template <class E> struct Driver {
         std::vector<std::pair<long, int>> trial;
         for (size_t i = 0; i < dev.size(); i++) if (i < start || i >= start + chunk) trial.push_back(dev[i]);
         SchedSpec ss; ss.mode = SchedSpec::DEVIATIONS; ss.deviations = trial;
-        Report rr = E::execute(plan, ss);
+        Report rr = run_plan(plan, ss);
         execs++;
         if (rr.cls == cls) {
           dev = rr.deviations;  // the deviations that were actually taken
@@ -171,7 +249,7 @@ template <class E> struct Driver {
     }
     // final: the decision list of the minimised run must replay strictly
     SchedSpec fs; fs.mode = SchedSpec::REPLAY_STRICT; fs.decisions = rep.decisions;
-    Report fr = E::execute(plan, fs);
+    Report fr = run_plan(plan, fs);
     execs++;
     bool ok = (fr.cls == cls && fr.fingerprint == rep.fingerprint && !fr.diverged);
     if (ok) rep = fr;
@@ -189,7 +267,7 @@ template <class E> struct Driver {
 
   static int usage() {
     fprintf(stderr,
-            "usage: %s run --seed S --from A --to B [--tier quick|thorough]\n"
+            "usage: %s run --seed S --from A --to B [--tier quick|thorough] [--no-isolate]\n"
             "       %s one --seed S --index K [--trace] [--tier T]\n"
             "       %s shrink --seed S --index K --out FILE [--tier T]\n"
             "       %s replay FILE [--trace]\n", E::name(), E::name(), E::name(), E::name());
@@ -213,6 +291,8 @@ template <class E> struct Driver {
       else if (a == "--tier") tier = nxt();
       else if (a == "--out") out = nxt();
       else if (a == "--trace") trace = true;
+      else if (a == "--isolate") isolate() = true;
+      else if (a == "--no-isolate") isolate() = false;
       else if (a[0] != '-') file = a;
       else return usage();
     }
@@ -226,7 +306,7 @@ template <class E> struct Driver {
       for (long k = from; k < to; k++) {
         printf("START %ld\n", k);
         Plan p = E::generate(seed, k, tier);
-        Report r = E::execute(p, SchedSpec());
+        Report r = run_plan(p, SchedSpec());
         for (uint64_t s : r.states) states.insert(s);
         bool sample = (k - from) < 2 || !r.cls.empty();
         printf("R %s\n", result_json(p, r, sample).dump().c_str());
@@ -248,20 +328,20 @@ template <class E> struct Driver {
     if (cmd == "one") {
       Plan p = E::generate(seed, index, tier);
       SchedSpec ss; ss.trace = trace;
-      Report r = E::execute(p, ss);
+      Report r = run_plan(p, ss);
       for (auto &l : r.trace) printf("%s\n", l.c_str());
       printf("R %s\n", result_json(p, r, true).dump().c_str());
       // determinism self-check: same plan again must give the same fingerprint
-      Report r2 = E::execute(p, SchedSpec());
+      Report r2 = run_plan(p, SchedSpec());
       printf("AGAIN fp=%s %s\n", js::hex(r2.fingerprint).c_str(), r2.fingerprint == r.fingerprint ? "same" : "DIFFERENT");
       return r.cls.empty() ? 0 : 1;
     }
     if (cmd == "shrink") {
       Plan p = E::generate(seed, index, tier);
-      Report r = E::execute(p, SchedSpec());
+      Report r = run_plan(p, SchedSpec());
       if (r.cls.empty()) { printf("SHRINK no-violation\n"); return 3; }
-      if (r.replacement_plan.t == js::Value::OBJ) { p = E::from_json(r.replacement_plan); r = E::execute(p, SchedSpec()); }
-      Report r2 = E::execute(p, SchedSpec());
+      if (r.replacement_plan.t == js::Value::OBJ) { p = E::from_json(r.replacement_plan); r = run_plan(p, SchedSpec()); }
+      Report r2 = run_plan(p, SchedSpec());
       if (r2.fingerprint != r.fingerprint || r2.cls != r.cls) { printf("SHRINK nondeterministic fp %s vs %s\n", js::hex(r.fingerprint).c_str(), js::hex(r2.fingerprint).c_str()); return 2; }
       js::Value info;
       std::string cls0 = r.cls;
@@ -276,7 +356,7 @@ template <class E> struct Driver {
       Plan p = E::from_json(v.at("plan"));
       SchedSpec ss; ss.mode = SchedSpec::REPLAY_STRICT; ss.trace = trace;
       for (auto &d : v.at("decisions").a) ss.decisions.push_back((int)d.i);
-      Report r = E::execute(p, ss);
+      Report r = run_plan(p, ss);
       for (auto &l : r.trace) printf("%s\n", l.c_str());
       std::string ecls = v.at("expect").str("class"), efp = v.at("expect").str("fingerprint");
       printf("R %s\n", result_json(p, r, true).dump().c_str());
